@@ -11,6 +11,7 @@ from __future__ import annotations
 import ast
 
 from ..core import AnalysisError, ClassInfo, FuncInfo, call_name, dotted, kwarg, walk_local
+from ..flow import conjuncts, dominating_atoms
 from .. import chains, coh, proto
 from .. import fields as F
 
@@ -281,6 +282,7 @@ def run(ctx):
     _sweeps(ctx, repo)
     _args(ctx, repo)
     _reader_defaults(ctx, repo)
+    _circuit_op_serializer(ctx, repo)
 
 
 # ---------------------------------------------------------------------------
@@ -875,3 +877,76 @@ def _reader_defaults(ctx, repo):
                     ctx.ob('C16.f', f'{m.name}.{fn.name}:presence-by-value:{tested}', ok,
                            '' if ok else f'the branch taken when `{tested}` is non-zero reads {others}: a value of 0 in {n.test.attr} (e.g. a sweep ending at 0.0) makes the reader '
                            'ignore sibling fields that were written', m.rel, n.lineno)
+
+
+def _only_in_tests(fn, node):
+    """is `node` only part of an if-test (never of a value that is written)?"""
+    for i_ in ast.walk(fn):
+        if isinstance(i_, ast.If) and any(x is node for x in ast.walk(i_.test)):
+            return True
+        if isinstance(i_, ast.Raise) and any(x is node for x in ast.walk(i_)):
+            return True          # mentioned in an error message
+    return False
+
+
+def _circuit_op_serializer(ctx, repo):
+    """C16.g - sub-circuit operations: every field of CircuitOperation is written (or refused) and read back."""
+    from .. import coh
+    ctx.decided.append('C16.g CircuitOpSerializer / CircuitOpDeserializer: every constructor field of CircuitOperation is read by the writer (or the writer refuses values it '
+                       'cannot express) and handed back to the constructor by the reader; the repetition-ids form is only used when the repetition count is not negative')
+    ctx.rule('C16.g', 'sub-circuit operations round-trip: (1) each CircuitOperation constructor parameter is looked at by to_proto; (2) each is passed to the constructor by from_proto; '
+             '(3) the oneof arm that stores repetition ids (from which the reader can only recover len(ids) >= 0) is not reachable with negative repetitions', floor=15, style='WR')
+    co = repo.cls('cirq.circuits.circuit_operation.CircuitOperation')
+    params = [p for p in coh.init_info(repo, co)[2]]
+    ws = repo.cls('cirq_google.serialization.op_serializer.CircuitOpSerializer')
+    rs = repo.cls('cirq_google.serialization.op_deserializer.CircuitOpDeserializer')
+    w, r = ws.methods.get('to_proto'), rs.methods.get('from_proto')
+    if w is None or r is None:
+        raise AnalysisError('CircuitOpSerializer.to_proto / CircuitOpDeserializer.from_proto vanished')
+    opname = next((a.arg for a in w.args.args if a.arg in ('op', 'operation')), w.args.args[1].arg)
+    read_w = {n.attr for n in ast.walk(w) if isinstance(n, ast.Attribute) and isinstance(n.value, ast.Name) and n.value.id == opname}
+    ctor = [c for c in ast.walk(r) if isinstance(c, ast.Call) and call_name(c) == 'CircuitOperation']
+    if not ctor:
+        raise AnalysisError('CircuitOpDeserializer.from_proto: CircuitOperation constructor call vanished')
+    pos = [a.arg for a in coh.init_info(repo, co)[1].args.args[1:]]
+    passed = set(pos[:len(ctor[0].args)]) | {k.arg for k in ctor[0].keywords if k.arg}
+    # a field the writer refuses (raise under a test reading it) counts as handled
+    INTERNAL = {'extern_keys': 'binding context set only by _with_rescoped_keys_ together with parent_path (which the writer refuses); it has no public accessor'}
+    for p_ in params:
+        if p_ in INTERNAL:
+            ctx.ob('C16.g', f'CircuitOpSerializer.to_proto:{p_}', True, 'listed: ' + INTERNAL[p_], ws.mod.rel, w.lineno)
+            continue
+        okw = p_ in read_w
+        # refused: a `raise` whose guarding test reads the field (the format cannot express it)
+        refused = any(isinstance(i_, ast.If) and any(isinstance(x_, ast.Raise) for x_ in i_.body)
+                      and any(isinstance(a_, ast.Attribute) and a_.attr == p_ and isinstance(a_.value, ast.Name) and a_.value.id == opname for a_ in ast.walk(i_.test))
+                      and not any(isinstance(x_, ast.Attribute) and isinstance(x_.ctx, ast.Store) for st_ in i_.body for x_ in ast.walk(st_))
+                      for i_ in ast.walk(w))
+        written = any(isinstance(n_, ast.Attribute) and n_.attr == p_ and isinstance(n_.value, ast.Name) and n_.value.id == opname and not _only_in_tests(w, n_)
+                      for n_ in ast.walk(w))
+        ctx.ob('C16.g', f'CircuitOpSerializer.to_proto:{p_}', okw, '' if okw else f'CircuitOperation.{p_} is neither written nor refused: two operations that differ only in {p_} serialise identically',
+               ws.mod.rel, w.lineno)
+        okr = p_ in passed or not okw or (refused and not written)
+        ctx.ob('C16.g', f'CircuitOpDeserializer.from_proto:{p_}', okr, '' if okr else f'the reader rebuilds the CircuitOperation without `{p_}`', rs.mod.rel, ctor[0].lineno)
+    # the ids arm loses the sign of `repetitions`
+    arms = [n for n in ast.walk(w) if isinstance(n, ast.If) and any(isinstance(x, ast.Attribute) and x.attr == 'repetition_ids' and isinstance(x.ctx, ast.Load)
+                                                                     for st in n.body for x in ast.walk(st))
+            and 'repetition_ids' in ast.unparse(n.test)]
+    if not arms:
+        raise AnalysisError('CircuitOpSerializer.to_proto: repetition-ids arm vanished')
+    par = ws.mod.parents()
+    guard = False
+
+    def sign_test(atom):
+        return any(isinstance(c_, ast.Compare) and 'repetitions' in ast.unparse(c_) and any(isinstance(o, (ast.GtE, ast.Gt, ast.Lt, ast.LtE)) for o in c_.ops) for c_ in ast.walk(atom))
+    for a in arms:
+        atoms = list(conjuncts(a.test, True)) + dominating_atoms(par, a, w)
+        if any(sign_test(atom) for atom, pol in atoms):
+            guard = True
+        # or: the arm itself refuses negative counts before it writes the ids
+        for st in a.body:
+            if isinstance(st, ast.If) and sign_test(st.test) and any(isinstance(x_, ast.Raise) for x_ in st.body):
+                guard = True
+    ctx.ob('C16.g', 'CircuitOpSerializer.to_proto:repetition-ids-arm:sign', guard,
+           '' if guard else 'an operation with custom repetition_ids and negative repetitions is written as the list of ids only; the reader recovers repetitions = len(ids): '
+           'CircuitOperation(c, repetitions=-2, repetition_ids=["a","b"]) comes back with repetitions=+2 (the inverse is lost)', ws.mod.rel, arms[0].lineno)
